@@ -379,6 +379,9 @@ func (x *txnCtx) filteredRangeConc(op *Op) {
 		v.Detail = fmt.Sprintf("Range after %s beside committing writers: %s (per-block set algebra on the states the library could see)", showChain(chain), v.Detail)
 		w.fail(v)
 	}
+	if op.Col != "" {
+		x.aggConc(op, s)
+	}
 }
 
 // clears reports whether a filter step hits a missing (or inapplicable) column, which makes
